@@ -18,7 +18,13 @@ EXTRA_T = [datetime.datetime, datetime.date, datetime.time, datetime.timedelta, 
 EXTRA_V = [datetime.datetime(2020, 1, 2, 3, 4, 5), datetime.date(2020, 1, 2), datetime.time(3, 4, 5), datetime.timedelta(seconds=90),
            "2020-01-02", "2020-01-02 03:04:05", "2020-01-02T03:04:05Z", "03:04:05", 1577934245, 1577934245.5, "1577934245",
            "12345678-1234-5678-1234-567812345678", 1, "g", "R", "P1DT2H", "1:30:00", b"2020-01-02", Decimal("90.5"), True, None,
-           [1], "1+2j", (1, 2)]
+           [1], "1+2j", (1, 2),
+           "2020-02-20 00:00:00.250000", "2020-02-20T00:00:00.000001", "2020-02-20 00:00:00", "2020-02-20T00:00:01",
+           datetime.datetime(2020, 2, 20, 0, 0, 0, 250000), datetime.datetime(2020, 2, 20), datetime.datetime(2020, 2, 20, 0, 0, 1),
+           b"2020-02-20 00:00:00.5"]
+# bytes that are not valid UTF-8 (no_data_loss must reject them wherever they would be decoded)
+BAD_BYTES = ["\u6d4b\u8bd51".encode("gbk"), b"\xfftrue", bytearray(b"\xe9\x80no"), b"\xff12", b"1\xfe", bytearray(b"\xff0"), b"\xfffalse",
+             b"\xff2020-01-02", b"\xc3(1.5"]
 
 
 def source_value(rng):
@@ -27,6 +33,8 @@ def source_value(rng):
         return gen.scalar(rng)
     if k < 0.8:
         return gen.value(rng, 1)
+    if k > 0.93:
+        return rng.choice(BAD_BYTES)
     return rng.choice([[5], ("7",), {"1"}, [1, 2], (1.5, 2), {"a": 1}, {}, [], (), b"12", b"true", "  12 ", "0", "1", 0.0, 1.0,
                        Decimal("0"), Decimal("1"), Decimal("1.0"), Decimal("1E+2"), 10 ** 17, float(2 ** 60), "1e2", "Infinity"])
 
@@ -72,6 +80,36 @@ TGROUP = {type(None): "null", bool: "boolean", int: "number", float: "number", D
           list: "array", tuple: "array", set: "array", frozenset: "array", dict: "object"}
 
 
+DECODING = (str, bool, int, float, Decimal, type(None))
+
+
+def valid_utf8(b):
+    try:
+        bytes(b).decode("utf-8")
+        return True
+    except UnicodeDecodeError:
+        return False
+
+
+def timed(v):
+    """a datetime, or a date-time string, whose time of day is not midnight"""
+    if isinstance(v, datetime.datetime):
+        return v.time().replace(tzinfo=None) != datetime.time(0, 0)
+    if isinstance(v, (bytes, bytearray)):
+        try:
+            v = bytes(v).decode()
+        except UnicodeDecodeError:
+            return False
+    if isinstance(v, str) and ":" in v:
+        import re
+        m = re.match(r"\s*\d{4}-\d{2}-\d{2}[T ](.*)$", v)
+        if not m:
+            return False
+        tpart = re.split(r"[zZ+]|(?<=\d)-(?=\d\d:)", m.group(1))[0]
+        return any(ch in "123456789" for ch in tpart)
+    return False
+
+
 def judge(t, v):
     """the property on one (source value, target) pair: returns None or a description"""
     res = {(nec, ndl): conv(t, v, nec, ndl) for nec in (False, True) for ndl in (False, True)}
@@ -103,8 +141,10 @@ def judge(t, v):
                     return "no_data_loss: ambiguous %r became the bool %r" % (v, r[1])
             if isinstance(v, (list, tuple, set, frozenset)) and len(v) > 1 and t in (int, float, str, bool, Decimal, bytes, type(None)):
                 return "no_data_loss: the %d-element collection %r collapsed to %r" % (len(v), v, r[1])
-            if t is datetime.date and (isinstance(v, datetime.datetime) or (isinstance(v, str) and ":" in v)):
-                return "no_data_loss: %r (with a time part) became the date %r" % (v, r[1])
+            if t is datetime.date and timed(v):
+                return "no_data_loss: %r (with a time of day) became the date %r" % (v, r[1])
+            if isinstance(v, (bytes, bytearray)) and not valid_utf8(v) and (t in DECODING or t in EXTRA_T):
+                return "no_data_loss: bytes that are not valid UTF-8 (%r) were decoded and became %r" % (v, r[1])
         if nec and t in TGROUP:
             gv, gt = group(v), TGROUP[t]
             allowed = gv == gt or (gv == "boolean" and gt == "number") or (gv == "number" and t is bool and v in (0, 1)) or \
